@@ -179,6 +179,19 @@ def callback_obligations(rep: report.Report, t: pt.Tables) -> List[Tuple[str, st
                 text += ch * n
             witnesses.append((prefix + text + suffix, start, f"{name} with {len(text)} characters "
                               f"(int digit limit {limit})"))
+    # digit-count boundaries of the numeric callbacks: the callbacks are code, a branch on how long
+    # the literal is (a precision switch, a fast path for short numerals) shows on a text with that
+    # many digits; one member of the terminal's language per digit count, 1..24 and powers of two
+    import re as _re
+
+    fre, ire = _re.compile(t.terminals["SIGNED_FLOAT"][1]), _re.compile(t.terminals["SIGNED_INT"][1])
+    for k in list(range(1, 25)) + [32, 64, 128, 256, 309, 400]:
+        for text, rx, nm in (("1." + "2" * (k - 1) if k > 1 else "1.", fre, "SIGNED_FLOAT"),
+                             ("-0." + "0" * 3 + "7" * k, fre, "SIGNED_FLOAT"),
+                             ("3" * k + ".5e2", fre, "SIGNED_FLOAT"), ("1." + "0" * k + "e-3", fre, "SIGNED_FLOAT"),
+                             ("4" * k, ire, "SIGNED_INT"), ("-" + "1" + "0" * (k - 1), ire, "SIGNED_INT")):
+            if rx.fullmatch(text):
+                witnesses.append((text + " m", "quantity", f"{nm} with {k} digits (digit-count boundary)"))
     rep.merge_stats(queries=P.asked, solver_s=P.solver_s)
     return witnesses
 
